@@ -152,6 +152,22 @@ LY_ERR lyd_validate(struct lyd_node **tree, const struct lys_module *module, con
         struct ly_set *ext_node_p, struct ly_set *ext_val_p, struct lyd_node **diff);
 
 /**
+ * @brief Validate the children of a data node after new children were added. The descendants of the new children
+ * are expected to have been validated except for the final validation (as when parsing the data).
+ *
+ * @param[in] parent Data parent (with a schema node) whose children to validate, children may be autodeleted.
+ * @param[in] val_opts Validation options, see @ref datavalidationoptions.
+ * @param[in] node_when_p Set of nodes with when conditions.
+ * @param[in] node_types_p Set of unres node types.
+ * @param[in] meta_types_p Set of unres metadata types.
+ * @param[in] ext_node_p Set of unres nodes with extensions to validate.
+ * @param[in] ext_val_p Set of unres extension data to validate.
+ * @return LY_ERR value.
+ */
+LY_ERR lyd_validate_children(struct lyd_node *parent, uint32_t val_opts, struct ly_set *node_when_p,
+        struct ly_set *node_types_p, struct ly_set *meta_types_p, struct ly_set *ext_node_p, struct ly_set *ext_val_p);
+
+/**
  * @brief Validate a data tree of an extension instance, which is assumed to be a separate data tree independent of
  * normal YANG data.
  *
